@@ -188,7 +188,7 @@ pub fn run(tier: &str, only: Option<String>) -> i32 {
         .collect();
     let skip_b = run.only.as_ref().map(|k| !k.starts_with("seq:")).unwrap_or(false);
     if !skip_b {
-        let st = par_items(&seqs, Some(120_000), &|_| {}, &|q: &Vec<usize>, st: &mut Stats| {
+        let st = par_items(&seqs, Some(bridge::rt::hang_limit()), &|_| {}, &|q: &Vec<usize>, st: &mut Stats| {
             let arg = q.iter().map(|c| c.to_string()).collect::<Vec<_>>().join(",");
             let mut ch = std::process::Command::new(&me)
                 .arg("C18-seq")
@@ -239,7 +239,7 @@ pub fn run(tier: &str, only: Option<String>) -> i32 {
     // (c) encoding the same instance again gives the same bytes (whole universe)
     if run.only.is_none() {
         let its = crate::p_values::items(&u, &run, &|_| true);
-        let st = par_items(&its, Some(60_000), &|_| {}, &|it: &crate::p_values::Item, st: &mut Stats| {
+        let st = par_items(&its, Some(bridge::rt::hang_limit()), &|_| {}, &|it: &crate::p_values::Item, st: &mut Stats| {
             for (i, v) in &it.vals {
                 let r = &(it.e.enc)(v, &[Sink::ToByteVecTwice])[0];
                 st.states += 1;
